@@ -3,6 +3,7 @@ import driver, build
 from driver import Run, check
 
 ASSUME_COMMON = [
+    'process environment: the C locale, plus (C01, C02, C09, C14) a second pass under a synthetic single-byte ISO-8859-2 locale built offline with localedef (tools/make_locale.py) in which bytes above 0x7F are letters with case mappings; time zone settings are enumerated in C11',
     'injected NFC/NFKD is libutf8proc; it truncates to sizeof(polyseed_str)-1 bytes and NUL-terminates',
     'reference model harness/ref.c (written from README.md + polyseed.h) and golden word lists /verif/golden (sha256-pinned, English digest = published BIP-39 digest)',
     'compilers, sanitizers, binutils (ld -r, objcopy section renaming)',
@@ -11,7 +12,7 @@ def pref(*pp):
     return lambda k: any(k.startswith(p) for p in pp) or k.startswith('crash:') or k.startswith('program-exit') or k.startswith('fatal:')
 
 def c01(tier, seed):
-    runs = [Run('e2_phrase', 'asan', ['c01'])]
+    runs = [Run('e2_phrase', 'asan', ['c01']), Run('e2_phrase', 'plain', ['--locale', 'verif_l2', '--tier', 'quick', 'c01'], label='e2_phrase[plain] c01 under a single-byte process locale')]
     if tier == 'thorough':
         runs.append(Run('e2_phrase', 'dbg', ['--tier', 'quick', 'c01'], label='e2_phrase[dbg] c01 (quick set, assertions on)'))
         runs += [Run('e2_phrase', m, ['--tier', 'quick', 'c01'], label='e2_phrase[%s] c01 (quick set, compiler matrix)' % m) for m in ('gcc-O3', 'clang-O2', 'clang-O3')]
@@ -24,7 +25,7 @@ def c03(tier, seed):
         'bit-linearity argument: the packing is determined by the 165 single-bit seeds and their pairs, which are enumerated completely'])
 
 def c02(tier, seed):
-    runs = [Run('e2_gf', 'plain', []), Run('e2_gf', 'asan', ['--stride', '61' if tier == 'quick' else '7'])]
+    runs = [Run('e2_gf', 'plain', []), Run('e2_gf', 'asan', ['--stride', '61' if tier == 'quick' else '7']), Run('e2_gf', 'plain', ['--locale', 'verif_l2', '--tier', 'quick', '--stride', '61'], label='e2_gf[plain] under a single-byte process locale')]
     return check('C02', tier, seed, runs, keyfilter=pref('c02:'), assumptions=ASSUME_COMMON + [
         'linearity argument: doubling checked on all 2048 elements at every Horner depth (part a) and additivity on all pairs of basis polynomials (part b) reduce detection to (position, difference), enumerated completely (part c)'])
 
@@ -136,7 +137,7 @@ def c18(tier, seed):
         'link audit: the undefined symbols of the merged library object (plain build) must be a subset of {malloc, free, time, mem*/str* helpers, bsearch, assert/stack-protector helpers}; malloc/free/time are redirected to counting wrappers'])
 
 def c09(tier, seed):
-    runs = [Run('e2_detect', 'asan', [])]
+    runs = [Run('e2_detect', 'asan', []), Run('e2_detect', 'plain', ['--locale', 'verif_l2', '--tier', 'quick'], label='e2_detect[plain] under a single-byte process locale')]
     def cov(results):
         res = results[0][1]
         return {k: res.get(k) for k in ('decision_rows_hit', 'decision_rows_feasible', 'recognition_classes', 'bases', 'strings')}
@@ -149,7 +150,7 @@ def c09(tier, seed):
         'strings are explored by bounded deviation (<= 2 deviations) from 28 base phrases with a menu of one token per cross-language recognition class (68 classes in the pinned lists) plus unknown/empty tokens and separator changes; inputs longer than sizeof(polyseed_str)-1 after normalisation are judged on the cut string'])
 
 def c14(tier, seed):
-    runs = [Run('e2_strings', 'asan', []), Run('e2_strings', 'dbg', []), Run('e2_storage', 'asan', ['--tier', 'quick'], label='e2_storage[asan] load enumeration')]
+    runs = [Run('e2_strings', 'asan', []), Run('e2_strings', 'dbg', []), Run('e2_storage', 'asan', ['--tier', 'quick'], label='e2_storage[asan] load enumeration'), Run('e2_strings', 'plain', ['--locale', 'verif_l2', '--tier', 'quick'], label='e2_strings[plain] under a single-byte process locale')]
     return check('C14', tier, seed, runs, keyfilter=pref('c14:', 'c06:leak', 'c06:accept'), assumptions=ASSUME_COMMON + [
         'small scope: all strings up to length 5 (thorough 6) over 9 byte classes, bare and after valid 14/15/16-token prefixes of every language, boundary-length families around the buffer size; other byte values are represented by their class only',
         'run in ASan+UBSan builds with and without assertions; each string sits in an exactly sized heap block'])
